@@ -542,6 +542,24 @@ impl QueryFilter {
                             };
                         }
                     }
+                } else if let Some(arr) =
+                    column.as_primitive_opt::<arrow_array::types::Float64Type>()
+                {
+                    // An integer literal against a float column compares numerically
+                    let expected = *expected as f64;
+                    for (i, val_opt) in arr.iter().enumerate() {
+                        if mask[i] {
+                            mask[i] = match (pred, val_opt) {
+                                (ColumnPredicate::Eq(..), Some(v)) => v == expected,
+                                (ColumnPredicate::NotEq(..), Some(v)) => v != expected,
+                                (ColumnPredicate::Lt(..), Some(v)) => v < expected,
+                                (ColumnPredicate::LtEq(..), Some(v)) => v <= expected,
+                                (ColumnPredicate::Gt(..), Some(v)) => v > expected,
+                                (ColumnPredicate::GtEq(..), Some(v)) => v >= expected,
+                                _ => false,
+                            };
+                        }
+                    }
                 }
             }
             PredicateValue::Float64(expected) => {
@@ -555,6 +573,23 @@ impl QueryFilter {
                                 (ColumnPredicate::NotEq(..), Some(v)) => {
                                     (v - expected).abs() >= f64::EPSILON
                                 }
+                                (ColumnPredicate::Lt(..), Some(v)) => v < *expected,
+                                (ColumnPredicate::LtEq(..), Some(v)) => v <= *expected,
+                                (ColumnPredicate::Gt(..), Some(v)) => v > *expected,
+                                (ColumnPredicate::GtEq(..), Some(v)) => v >= *expected,
+                                _ => false,
+                            };
+                        }
+                    }
+                } else if let Some(arr) =
+                    column.as_primitive_opt::<arrow_array::types::Int64Type>()
+                {
+                    // A fractional literal against an integer column compares numerically
+                    for (i, val_opt) in arr.iter().enumerate() {
+                        if mask[i] {
+                            mask[i] = match (pred, val_opt.map(|v| v as f64)) {
+                                (ColumnPredicate::Eq(..), Some(v)) => v == *expected,
+                                (ColumnPredicate::NotEq(..), Some(v)) => v != *expected,
                                 (ColumnPredicate::Lt(..), Some(v)) => v < *expected,
                                 (ColumnPredicate::LtEq(..), Some(v)) => v <= *expected,
                                 (ColumnPredicate::Gt(..), Some(v)) => v > *expected,
